@@ -22,6 +22,9 @@ RULE = ('acyclic equation systems V_i = term(V_j, j>i, constants) of 2-6 equatio
         'variable inside its value is bound (outer-first order) and the answer is nested; distinct = hash of the case')
 ASSUMPTIONS = ['expected values come from an independent Robinson unifier over the equation system (order-independent)',
                'to_python of partial lists is unspecified and not called', 'STO systems are discarded']
+RULE_ADDED = (' Added after the rounds of independently written changes (DESIGN.md 12.2): ' +
+              "systems of up to 12 equations and lists of up to 33 elements (answers above 3000 nodes are discarded and counted); assert / findall / once goals between two bindings; answers built incrementally by append / dup / reverse through up to 150 nested bindings; 'no bound Variable inside a get_value result' as an invariant; findall templates bound after the findall.")
+RULE = RULE + RULE_ADDED
 
 CONST = [A('a'), A('b'), I(1), I(7), NIL]
 
